@@ -201,20 +201,25 @@ pub fn drive_c17(args: &[String]) {
     let out = arg(args, "--out").unwrap();
     let max3 = arg_usize(args, "--max3d", 1);
     let sample = arg_usize(args, "--permille", 1000);
+    let cover_depth = arg_usize(args, "--cover-depth", 2);
     let mut sink = Sink::create(&out);
     let mut rng = rng(17);
-    let mut list: Vec<(PartialDSym, bool)> = corpus3d().into_iter().map(|s| (s, true)).collect();
-    for n in 1..=max3 { for s in domain3d(n) { if sample >= 1000 || rng.gen_range(0..1000) < sample { list.push((s, false)); } } }
-    for (s, is_corpus) in &list {
-        let mut e = json!({"ev": "euclidicity", "sym": dsym_json(s), "corpus": is_corpus});
+    // work list: (symbol, is corpus, depth in the cover tree)
+    let mut list: std::collections::VecDeque<(PartialDSym, bool, usize)> = corpus3d().into_iter().map(|s| (s, true, 0)).collect();
+    for n in 1..=max3 { for s in domain3d(n) { list.push_back((s, false, 0)); } }
+    let mut seen: std::collections::HashSet<String> = Default::default();
+    while let Some((s, is_corpus, depth)) = list.pop_front() {
+        let mut e = json!({"ev": "euclidicity", "sym": dsym_json(&s), "corpus": is_corpus, "depth": depth});
         pending(&e);
-        let v = verdict(s);
+        let v = verdict(&s);
+        // symbols rejected outright by the invariant filter are kept as a seeded sample only
+        let dull = matches!(&v, Ok((c, why)) if c == "no" && why == "orbifold invariants do not match");
+        if dull && depth == 0 && !is_corpus && !(sample >= 1000 || rng.gen_range(0..1000) < sample) { continue; }
         match &v {
             Ok((cls, why)) => {
                 e["verdict"] = json!(cls); e["reason"] = json!(why);
                 if cls == "yes" {
-                    // independently checkable certificate: the covering and the presentation of its simplified form
-                    match catch(|| { let oc = oriented_cover(s); let c = pseudo_toroidal_cover(s).unwrap(); let simp = simplify(&c).unwrap(); (oc, c, simp) }) {
+                    match catch(|| { let oc = oriented_cover(&s); let c = pseudo_toroidal_cover(&s).unwrap(); let simp = simplify(&c).unwrap(); (oc, c, simp) }) {
                         Ok((oc, c, simp)) => { e["cert"] = json!({"oc": dsym_json(&oc), "cov": dsym_json(&c), "pres": pres(&simp), "pres_cov": pres(&c)}); }
                         Err(m) => { e["panic"] = json!(format!("certificate: {m}")); }
                     }
@@ -224,15 +229,25 @@ pub fn drive_c17(args: &[String]) {
         }
         let n = s.size();
         let mut vs = vec![];
-        let mut variant = |how: &str, t: &PartialDSym| { let mut w = json!({"how": how}); match verdict(t) { Ok((c, _)) => w["verdict"] = json!(c), Err(m) => w["panic"] = json!(m) } vs.push(w); };
-        let interesting = v.as_ref().map_or(true, |(c, _)| c != "no") || rng.gen_bool(0.15);
-        if interesting {
-            if n >= 2 { variant("renumber", &renumber(s, &rand_perm(n, &mut rng))); }
-            variant("dual", &dual(s));
-            if n <= 2 {
-                let mut cs = catch(|| covers(s, 2)).unwrap_or_default().into_iter().filter(|c| c.size() > n).collect::<Vec<_>>();
-                cs.shuffle(&mut rng);
-                for c in cs.into_iter().take(2) { variant("cover", &c); }
+        let mut variant = |how: &str, t: &PartialDSym| -> Option<String> { let mut w = json!({"how": how}); let r = verdict(t); match &r { Ok((c, _)) => w["verdict"] = json!(c), Err(m) => w["panic"] = json!(m) } vs.push(w); r.ok().map(|x| x.0) };
+        if !dull || rng.gen_bool(0.2) {
+            if n >= 2 { variant("renumber", &renumber(&s, &rand_perm(n, &mut rng))); }
+            variant("dual", &dual(&s));
+        }
+        // covers: a few for every symbol that passed the filter; ALL 2-sheeted covers of a symbol reported
+        // euclidean, and those reported euclidean in turn join the work list (contradictions show up deeper
+        // in the cover tree: yes -> yes -> no)
+        let is_yes = matches!(&v, Ok((c, _)) if c == "yes");
+        if (!dull || n <= 2) && n <= 8 {
+            let mut cs = catch(|| covers(&s, 2)).unwrap_or_default().into_iter().filter(|c| c.size() > n).collect::<Vec<_>>();
+            cs.shuffle(&mut rng);
+            if !is_yes { cs.truncate(2); } else { cs.truncate(40); }
+            for c in cs {
+                let cv = variant("cover", &c);
+                if is_yes && depth < cover_depth && c.size() <= 8 && cv.as_deref() == Some("yes") {
+                    let key = canonical(&c).to_string();
+                    if seen.insert(key) { list.push_back((c, false, depth + 1)); }
+                }
             }
         }
         e["variants"] = json!(vs);
